@@ -1334,7 +1334,9 @@ class Kconfig(object):
                 )
             )
 
-            self.set_value_and_source(sym, val if val[0] not in ("'", '"') else val[1:-1], filename)
+            # A string is written with quotes and escapes like any other string assignment; an option without a value
+            # is written with nothing after the equal sign.
+            self.set_value_and_source(sym, unescape(val[1:-1]) if val[:1] in ("'", '"') else val, filename)
             return sym
 
         in_deprecated_block = False
